@@ -46,7 +46,13 @@ META = {
             "(rpc_pin_via_public_pin_fails, rpc_pin_clearing_allocations_fails); pin objects WITHOUT a cid (cid.Undef) are sent by the harness and judged by the clause pin_without_cid_refused (sem_step_holds_all: every clause for ALL requests, "
             "defined cid or not); unpin_done_retry_is_noop (a completed Unpin re-run is refused and changes nothing) and mixed_factor_with_everywhere_default_refused (min>0 with max left to a default of -1 is refused). "
             "The source-text snapshots of the seven semantically tied functions (Pin, PinPath, UnpinPath, pin, setupPin, Unpin, PinUpdate) were removed: a harmless rewrite of them is now silent; text snapshots remain for "
-            "setupReplicationFactor, unpinClusterDag, cidsFromMetaPin, checkPinType, PinOptions.Equals, Pin.Equals, PinWithOpts, IsRemotePin, ExpiredAt.",
+            "setupReplicationFactor, unpinClusterDag, cidsFromMetaPin, checkPinType, PinOptions.Equals, Pin.Equals, PinWithOpts, IsRemotePin, ExpiredAt."
+            " Round 8d: calls with a consensus fault (!k) are now ALSO compared with the regenerated statement sequences: Sem.stepSemF lets the k-th consensus call the interpreted sequences issue fail "
+            "(semF_is_model / semF_is_stepF: for ALL inputs and every fault position this is the faulted model stepF; semF_failed_call_is_noop_partial: the all-or-nothing statement for single-call operations re-proved over the interpreted code, all requests); "
+            "the clock of the expiry check as an input (Clock.refusedAt / takenAt / expiredAt over nanosecond instants, Go's zero time included): expired_refused_iff (refused iff an expiry is set and strictly before now, EVERY clock value), "
+            "expiry_boundary (now-1ns refused; now, now+1ns, zero time, any later instant accepted), clock_abstraction (the model's abstract instants zero/unix-zero/past/future are a sound reading of every (now, expiry) pair; exp = now is the one value afterNow cannot express), "
+            "expiry_guard_iff_clock (the .expiry statement of the regenerated setupPin), clock_past_pin_refused, expiredAt_is_refused_except_unix_zero (api.Pin.ExpiredAt vs the pin-time check differ exactly at time.Unix(0,0)); the real clock is NOT frozen by the harness (time.Now() is called directly; instants stay the tokens z/u/p/f<k>) - the boundary is proved, not driven; "
+            "update_field_table (exactly which fields PinUpdate takes from the call / the request / the source pin) with the refutation update_does_not_take_request_metadata; setup_replication_factor_table + factors_valid_iff (every (request, default) combination) and checkPinType_iff.",
     "note": "Trusted: Lean kernel, hand-written model/spec, harness fakes (consensus = dsstate applying ops directly, table IPFS connector), verif_export.go. "
             "Allocation validity is delegated to C03.",
     "technique": "Lean 4 theorem over a step model + semantic go/ast translation of the RPC layer and of the statement sequences (constructors, guards, early returns) of cluster.go's pin/unpin/update functions, both interpreted by the model + regenerated source text of the anchored functions that have no semantic tie checked against the transcribed snapshot (rfl) + differential correspondence per API call with explicit pre-state",
